@@ -40,15 +40,16 @@ META = {
 }
 
 WORKERS = 6
-JUDGES = 3
+JUDGES = 4
+GENS = 4
 BATCH = 300
 
 TIERS = {
     # REDUCE: how many of the failing cases of the seeded stratum "expand" are reduced to cores (the smallest ones)
     "quick": {"SMALLN": 3, "NEXPAND": 2500, "NCOND": 1000, "NINCLUDE": 400, "REDUCE": 25},
-    "thorough": {"SMALLN": 4, "NEXPAND": 120000, "NCOND": 40000, "NINCLUDE": 10000, "REDUCE": 600},
+    "thorough": {"SMALLN": 4, "NEXPAND": 60000, "NCOND": 20000, "NINCLUDE": 6000, "REDUCE": 300},
 }
-ENV0 = {"SEED": "0", "SMALLN": "3", "NEXPAND": "0", "NCOND": "0", "NINCLUDE": "0", "OUT": "/dev/null", "CASES": "/dev/null", "OBS": "/dev/null"}
+ENV0 = {"SEED": "0", "SMALLN": "3", "STRATUM": "none", "FROM": "0", "TO": "0", "OUT": "/dev/null", "CASES": "/dev/null", "OBS": "/dev/null"}
 
 
 def tlc_step(step, env, timeout, xmx="8g", must_pass=True):
@@ -67,12 +68,33 @@ def stat(out, name):
     return int(m.group(1))
 
 
+GEN_CHUNK = 4000
+
+
 def gen(tier, seed, work):
-    out = os.path.join(work, "cases.ndjson")
-    r = tlc_step("gen", dict({k: v for k, v in TIERS[tier].items() if k != "REDUCE"}, SEED=seed, OUT=out), timeout=3000, xmx="12g")
-    rows = vlib.read_ndjson(out)
-    if len(rows) != stat(r.out, "GEN"):
-        raise vlib.InfraError("Cpp gen: count mismatch")
+    """One TLC run per stratum / per chunk of a seeded stratum, GENS at a time. Returns rows with global ids."""
+    t = TIERS[tier]
+    jobs = [("small", 0, 0), ("pair", 0, 0)]
+    for name, n in (("expand", t["NEXPAND"]), ("cond", t["NCOND"]), ("include", t["NINCLUDE"])):
+        for lo in range(1, n + 1, GEN_CHUNK):
+            jobs.append((name, lo, min(n, lo + GEN_CHUNK - 1)))
+
+    def one(j):
+        name, lo, hi = j
+        out = os.path.join(work, "cases-%s-%d.ndjson" % (name, lo))
+        r = tlc_step("gen", dict(SEED=seed, SMALLN=t["SMALLN"], STRATUM=name, FROM=lo, TO=hi, OUT=out), timeout=3000, xmx="6g")
+        rows = vlib.read_ndjson(out)
+        os.unlink(out)
+        if len(rows) != stat(r.out, "GEN"):
+            raise vlib.InfraError("Cpp gen: count mismatch")
+        return rows
+
+    rows = []
+    with cf.ThreadPoolExecutor(max_workers=GENS) as ex:
+        for part in ex.map(one, jobs):
+            for r in part:
+                r["id"] = len(rows) + 1
+                rows.append(r)
     return rows
 
 
